@@ -102,13 +102,10 @@ Definition py_int (v : pyval) : option N :=
   match v with PInt n => Some n | PBool b => Some (if b then 1%N else 0%N) | _ => None end.
 Definition truthy (v : pyval) : bool :=
   match v with PStr s => negb (null s) | PInt n => negb (N.eqb n 0) | PBool b => b | PNone => false end.
-(* ast._to_number: a str that spells a number (whitespace, optional minus, digits with an optional fraction, or a
-   fraction alone; the pattern is pinned by translate/gen_xeval.py) -> float(str), any other str -> NaN; bool / int -> float.
-   \s and \d are the Unicode classes (tables regenerated from the interpreter: PyStr.is_ws, GenXEval.unicode_digits) *)
-Fixpoint assoc_N (l : list (N * N)) (c : N) : option N :=
-  match l with [] => None | (k, v) :: r => if N.eqb k c then Some v else assoc_N r c end.
-Definition py_digit (c : char) : option N := assoc_N unicode_digits c.
-Definition py_number (s : str) : xnum := parse_number is_ws py_digit s.
+(* ast._to_number: a str that spells an XPath 1.0 number (XML whitespace, optional minus, ASCII digits with an optional
+   fraction, or a fraction alone; the pattern is pinned by translate/gen_xeval.py since fix 2f48f15) -> float(str), any
+   other str -> NaN; bool / int -> float *)
+Definition py_number (s : str) : xnum := xpath_number s.
 Definition to_number (v : pyval) : xnum :=
   match v with
   | PStr s => py_number s
@@ -121,16 +118,26 @@ Definition is_pyint (v : pyval) : bool := match v with PInt _ => true | _ => fal
 Definition cmp_of (o : binop) : option cmpop :=
   match o with OpEq => Some CEq | OpNe => Some CNe | OpLt => Some CLt | OpLe => Some CLe | OpGt => Some CGt | OpGe => Some CGe
              | _ => None end.
-(* BooleanOperator.evaluate for the six comparison operators (fix 6d4104b) *)
-Definition py_compare (c : cmpop) (a b : pyval) : bool :=
+Definition is_pynone (v : pyval) : bool := match v with PNone => true | _ => false end.
+(* BooleanOperator.evaluate for the six comparison operators (fixes 6d4104b, 55dbc63); la / ra: the operand's AST node
+   is an AttributeValue *)
+Definition py_compare (la ra : bool) (c : cmpop) (a b : pyval) : bool :=
+  if is_pybool a || is_pybool b then
+    (* against a boolean an attribute is a node set that is true if the attribute exists *)
+    let a' := if la then PBool (negb (is_pynone a)) else a in
+    let b' := if ra then PBool (negb (is_pynone b)) else b in
+    match c with
+    | CEq => Bool.eqb (truthy a') (truthy b')
+    | CNe => negb (Bool.eqb (truthy a') (truthy b'))
+    | _ => num_compare c (to_number a') (to_number b')
+    end
+  else
   match a, b with
   | PNone, _ | _, PNone => false                                 (* a missing attribute: an empty node set *)
   | _, _ =>
       match c with
       | CEq | CNe =>
-          if is_pybool a || is_pybool b then
-            (match c with CEq => Bool.eqb (truthy a) (truthy b) | _ => negb (Bool.eqb (truthy a) (truthy b)) end)
-          else if is_pyint a || is_pyint b then num_compare c (to_number a) (to_number b)
+          if is_pyint a || is_pyint b then num_compare c (to_number a) (to_number b)
           else match a, b with
                | PStr x, PStr y => (match c with CEq => str_eqb x y | _ => negb (str_eqb x y) end)
                | _, _ => false
@@ -138,12 +145,12 @@ Definition py_compare (c : cmpop) (a b : pyval) : bool :=
       | _ => num_compare c (to_number a) (to_number b)
       end
   end.
-Definition py_binop (o : binop) (a b : pyval) : res pyval :=
+Definition py_binop (la ra : bool) (o : binop) (a b : pyval) : res pyval :=
   match o with
   (* and / or: both operands are evaluated (no short circuit), converted with bool(), then combined *)
   | OpAnd => Ok (PBool (truthy a && truthy b))
   | OpOr => Ok (PBool (truthy a || truthy b))
-  | _ => match cmp_of o with Some c => Ok (PBool (py_compare c a b)) | None => Crash OtherError end
+  | _ => match cmp_of o with Some c => Ok (PBool (py_compare la ra c a b)) | None => Crash OtherError end
   end.
 
 (* node.attributes.get((ns, local)): TagAttributes._etree_key sends a namespace equal to the element's in-scope
@@ -169,6 +176,9 @@ Definition first_text_child (c : nd) : str :=
   end.
 
 (* calling a registered function with already evaluated arguments *)
+(* functions._to_string on the values that reach a function: str, bool, int ("" stands for None already) *)
+Definition py_to_string (v : pyval) : str :=
+  match v with PStr s => s | PBool b => if b then STR_true else STR_false | PInt n => N_to_dec n | PNone => [] end.
 Definition call_body (b : fbody) (args : list pyval) (c : nd) (pos size : N) : res pyval :=
   let arg i := nth i args PNone in
   match b with
@@ -189,6 +199,9 @@ Definition call_body (b : fbody) (args : list pyval) (c : nd) (pos size : N) : r
       | _, _ => Crash AttributeError
       end
   | FFirstTextChild => Ok (PStr (first_text_child c))
+  | FJoinAllS => Ok (PStr (concat (map py_to_string args)))
+  | FInS needle hay => Ok (PBool (py_contains (py_to_string (arg hay)) (py_to_string (arg needle))))
+  | FStartsWithS s p => Ok (PBool (py_startswith (py_to_string (arg s)) (py_to_string (arg p))))
   end.
 Definition call_fn (name : str) (args : list pyval) (c : nd) (pos size : N) : res pyval :=
   match f_lookup xpath_functions name with
@@ -199,6 +212,7 @@ Definition call_fn (name : str) (args : list pyval) (c : nd) (pos size : N) : re
       else Crash TypeError
   end.
 
+Definition is_attrval (e : expr) : bool := match e with AttributeValue _ _ => true | _ => false end.
 Fixpoint d_expr (m : nsmap) (e : expr) (c : nd) (pos size : N) {struct e} : res pyval :=
   match e with
   | AnyValue (VStr s) => Ok (PStr s)
@@ -215,7 +229,7 @@ Fixpoint d_expr (m : nsmap) (e : expr) (c : nd) (pos size : N) {struct e} : res 
            then Ok (PBool (match delb_attr (ipayload (snd c)) (attr_ns m p) l with Some _ => true | None => false end))
            else Ok (PBool false)
   | BooleanOperator o l r =>
-      bind (d_expr m l c pos size) (fun a => bind (d_expr m r c pos size) (fun b => py_binop o a b))
+      bind (d_expr m l c pos size) (fun a => bind (d_expr m r c pos size) (fun b => py_binop (is_attrval l) (is_attrval r) o a b))
   | Function name args =>
       bind ((fix go (l : list expr) : res (list pyval) :=
                match l with
